@@ -110,6 +110,9 @@ def rand_const(rng, dom):
         return rng.choice([1, 2, 4, 5, 0.5, 3, 10, -2, 0.25])
     if dom == "posmod":
         return rng.choice([1, 2, 3, 5, 7, 10, 2.5, 0.5, 360])
+    if rng.random() < 0.2:
+        # magnitudes far from 1: folded results below 1e-15 or above 2^53 must still be the computed value
+        return rng.choice([1e-9, 1e-10, 2.5e-16, 5e-5, 1e-5, 0.001, 1e7, 1e15, 6.02e23, -1.380649e-23, 3e-7, 123456789.125])
     return rng.choice([0, 1, 2, 3, 5, 7, 9, 10, 0.5, 2.5, 0.25, 1.5, 100, 255, -1, -3, -2.5, 1000, 3.75, 12, 0.125])
 
 
